@@ -91,27 +91,45 @@ deriving DecidableEq, Repr, Inhabited
 /-- `Importer::new` on a storage that already holds `next` objects -/
 def St.init (next : Nat) : St := ⟨[], [], [], next, []⟩
 
+/-- `HashMap::get` on the memo (association list, newest entry first) -/
+def lk : List (Nat × Nat) → Nat → Option Nat
+  | [], _ => none
+  | (k, v) :: m, a => if a = k then some v else lk m a
+
 /-- sequential traversal with early exit (`iter().map(..).collect::<Result<_>>()`, `?` in a loop);
     the state reached so far is returned with the error -/
 def mapSt {σ α β : Type} (g : α → σ → Out β × σ) : List α → σ → Out (List β) × σ
   | [], s => (.ok [], s)
   | a :: as, s =>
-    match g a s with
-    | (.ok b, s1) =>
-      match mapSt g as s1 with
-      | (.ok bs, s2) => (.ok (b :: bs), s2)
-      | (.err, s2) => (.err, s2)
-      | (.panic, s2) => (.panic, s2)
-      | (.oof, s2) => (.oof, s2)
-    | (.err, s1) => (.err, s1)
-    | (.panic, s1) => (.panic, s1)
-    | (.oof, s1) => (.oof, s1)
+    match (g a s).1 with
+    | .ok b =>
+      match (mapSt g as (g a s).2).1 with
+      | .ok bs => (.ok (b :: bs), (mapSt g as (g a s).2).2)
+      | .err => (.err, (mapSt g as (g a s).2).2)
+      | .panic => (.panic, (mapSt g as (g a s).2).2)
+      | .oof => (.oof, (mapSt g as (g a s).2).2)
+    | .err => (.err, (g a s).2)
+    | .panic => (.panic, (g a s).2)
+    | .oof => (.oof, (g a s).2)
+
+/-- `self.pending.push(old)` -/
+def St.push (st : St) (o : Nat) : St := { st with pending := o :: st.pending }
+/-- `self.pending.pop()` -/
+def St.pop (st : St) : St := { st with pending := st.pending.tail }
+
+/-- `self.updater.create(clone)`, `self.map.insert(old, new)` (and `rcrefs.insert` in `clone_rcref`) -/
+def St.alloc (st : St) (old : Nat) (payload : Nat) (kids : List Nat) (rc : Bool) : St :=
+  { map := (old, st.next) :: st.map,
+    rcrefs := if rc then st.next :: st.rcrefs else st.rcrefs,
+    pending := st.pending,
+    next := st.next + 1,
+    objs := ⟨st.next, payload, kids⟩ :: st.objs }
 
 /-- `clone_plainref` / `clone_ref` / `clone_rcref` (the kind of the edge selects which). -/
 def cloneRef : Nat → Src → Edge → St → Out Nat × St
   | 0, _, _, st => (.oof, st)
   | f+1, src, e, st =>
-    match st.map.lookup e.tgt with
+    match lk st.map e.tgt with
     | some n =>
       match e.kind with
       | .prim => (.ok n, st)
@@ -123,28 +141,26 @@ def cloneRef : Nat → Src → Edge → St → Out Nat × St
           match src e.tgt with
           | none => (.err, st)
           | some node =>
-            match mapSt (cloneRef f src) (node.kids .rc) { st with pending := e.tgt :: st.pending } with
-            | (.ok _, st1) => (.ok n, { st1 with pending := st1.pending.tail, rcrefs := n :: st1.rcrefs })
-            | (.err, st1) => (.err, { st1 with pending := st1.pending.tail })
-            | (.panic, st1) => (.panic, { st1 with pending := st1.pending.tail })
-            | (.oof, st1) => (.oof, st1)
+            match (mapSt (cloneRef f src) (node.kids .rc) (st.push e.tgt)).1 with
+            | .ok _ =>
+              let st1 := (mapSt (cloneRef f src) (node.kids .rc) (st.push e.tgt)).2.pop
+              (.ok n, { st1 with rcrefs := n :: st1.rcrefs })
+            | .err => (.err, (mapSt (cloneRef f src) (node.kids .rc) (st.push e.tgt)).2.pop)
+            | .panic => (.panic, (mapSt (cloneRef f src) (node.kids .rc) (st.push e.tgt)).2.pop)
+            | .oof => (.oof, (mapSt (cloneRef f src) (node.kids .rc) (st.push e.tgt)).2.pop)
     | none =>
       if e.tgt ∈ st.pending then (.err, st)
       else
         match src e.tgt with
         | none => (.err, st)
         | some node =>
-          match mapSt (cloneRef f src) (node.kids e.kind) { st with pending := e.tgt :: st.pending } with
-          | (.ok ks, st1) =>
-            (.ok st1.next,
-              { map := (e.tgt, st1.next) :: st1.map,
-                rcrefs := if e.kind = .rc then st1.next :: st1.rcrefs else st1.rcrefs,
-                pending := st1.pending.tail,
-                next := st1.next + 1,
-                objs := ⟨st1.next, node.payload, ks⟩ :: st1.objs })
-          | (.err, st1) => (.err, { st1 with pending := st1.pending.tail })
-          | (.panic, st1) => (.panic, { st1 with pending := st1.pending.tail })
-          | (.oof, st1) => (.oof, st1)
+          match (mapSt (cloneRef f src) (node.kids e.kind) (st.push e.tgt)).1 with
+          | .ok ks =>
+            let st1 := (mapSt (cloneRef f src) (node.kids e.kind) (st.push e.tgt)).2.pop
+            (.ok st1.next, st1.alloc e.tgt node.payload ks (e.kind = .rc))
+          | .err => (.err, (mapSt (cloneRef f src) (node.kids e.kind) (st.push e.tgt)).2.pop)
+          | .panic => (.panic, (mapSt (cloneRef f src) (node.kids e.kind) (st.push e.tgt)).2.pop)
+          | .oof => (.oof, (mapSt (cloneRef f src) (node.kids e.kind) (st.push e.tgt)).2.pop)
 
 /-- the references of a direct value (an `Option<Primitive>`, a `Dictionary`, a resource entry),
     cloned in order -/
@@ -219,33 +235,38 @@ def cloneOp (f : Nat) (src : Src) (old : ResTable Entry) (op : OpM) (s : ResTabl
       | none =>
         match resGet old k name with
         | none => (.ok (), s)
-        | some node =>
-          match cloneKids f src node.kids s.2 with
-          | (.ok ks, st1) => (.ok (), (((k, name), (node.payload, ks)) :: s.1, st1))
-          | (.err, st1) => (.err, (s.1, st1))
-          | (.panic, st1) => (.panic, (s.1, st1))
-          | (.oof, st1) => (.oof, (s.1, st1))
+        | some ent =>
+          match (cloneKids f src ent.kids s.2).1 with
+          | .ok ks => (.ok (), (((k, name), (ent.payload, ks)) :: s.1, (cloneKids f src ent.kids s.2).2))
+          | .err => (.err, (s.1, (cloneKids f src ent.kids s.2).2))
+          | .panic => (.panic, (s.1, (cloneKids f src ent.kids s.2).2))
+          | .oof => (.oof, (s.1, (cloneKids f src ent.kids s.2).2))
     else (.ok (), s)
   | .inline kids =>
-    match cloneKids f src kids s.2 with
-    | (.ok _, st1) => (.ok (), (s.1, st1))
-    | (.err, st1) => (.err, (s.1, st1))
-    | (.panic, st1) => (.panic, (s.1, st1))
-    | (.oof, st1) => (.oof, (s.1, st1))
+    match (cloneKids f src kids s.2).1 with
+    | .ok _ => (.ok (), (s.1, (cloneKids f src kids s.2).2))
+    | .err => (.err, (s.1, (cloneKids f src kids s.2).2))
+    | .panic => (.panic, (s.1, (cloneKids f src kids s.2).2))
+    | .oof => (.oof, (s.1, (cloneKids f src kids s.2).2))
   | .other _ => (.ok (), s)
+
+/-- the operations of a page, in order (`ops.into_iter().map(deep_clone_op).collect()`) -/
+def cloneOps (f : Nat) (src : Src) (old : ResTable Entry) (ops : List OpM) (st : St) :
+    Out (List Unit) × (ResTable (Nat × List Nat) × St) :=
+  mapSt (cloneOp f src old) ops ([], st)
 
 /-- `PageBuilder::clone_page` -/
 def clonePage (f : Nat) (src : Src) (p : PageM) (st : St) : Out PageOut × St :=
-  match mapSt (cloneOp f src p.res) p.ops ([], st) with
-  | (.ok _, (res, st1)) =>
-    match cloneKids f src p.rest st1 with
-    | (.ok ks, st2) => (.ok ⟨res, ks⟩, st2)
-    | (.err, st2) => (.err, st2)
-    | (.panic, st2) => (.panic, st2)
-    | (.oof, st2) => (.oof, st2)
-  | (.err, (_, st1)) => (.err, st1)
-  | (.panic, (_, st1)) => (.panic, st1)
-  | (.oof, (_, st1)) => (.oof, st1)
+  match (cloneOps f src p.res p.ops st).1 with
+  | .ok _ =>
+    match (cloneKids f src p.rest (cloneOps f src p.res p.ops st).2.2).1 with
+    | .ok ks => (.ok ⟨(cloneOps f src p.res p.ops st).2.1, ks⟩, (cloneKids f src p.rest (cloneOps f src p.res p.ops st).2.2).2)
+    | .err => (.err, (cloneKids f src p.rest (cloneOps f src p.res p.ops st).2.2).2)
+    | .panic => (.panic, (cloneKids f src p.rest (cloneOps f src p.res p.ops st).2.2).2)
+    | .oof => (.oof, (cloneKids f src p.rest (cloneOps f src p.res p.ops st).2.2).2)
+  | .err => (.err, (cloneOps f src p.res p.ops st).2.2)
+  | .panic => (.panic, (cloneOps f src p.res p.ops st).2.2)
+  | .oof => (.oof, (cloneOps f src p.res p.ops st).2.2)
 
 /-! ### the code before the fixes (regression statements only) -/
 
@@ -255,7 +276,7 @@ namespace Old
 def cloneRef : Nat → Src → Edge → St → Out Nat × St
   | 0, _, _, st => (.oof, st)
   | f+1, src, e, st =>
-    match st.map.lookup e.tgt with
+    match lk st.map e.tgt with
     | some n =>
       match e.kind with
       | .prim => (.ok n, st)
@@ -265,17 +286,13 @@ def cloneRef : Nat → Src → Edge → St → Out Nat × St
       match src e.tgt with
       | none => (.err, st)
       | some node =>
-        match mapSt (cloneRef f src) (node.kids e.kind) st with
-        | (.ok ks, st1) =>
-          (.ok st1.next,
-            { map := (e.tgt, st1.next) :: st1.map,
-              rcrefs := if e.kind = .rc then st1.next :: st1.rcrefs else st1.rcrefs,
-              pending := st1.pending,
-              next := st1.next + 1,
-              objs := ⟨st1.next, node.payload, ks⟩ :: st1.objs })
-        | (.err, st1) => (.err, st1)
-        | (.panic, st1) => (.panic, st1)
-        | (.oof, st1) => (.oof, st1)
+        match (mapSt (cloneRef f src) (node.kids e.kind) st).1 with
+        | .ok ks =>
+          let st1 := (mapSt (cloneRef f src) (node.kids e.kind) st).2
+          (.ok st1.next, st1.alloc e.tgt node.payload ks (e.kind = .rc))
+        | .err => (.err, (mapSt (cloneRef f src) (node.kids e.kind) st).2)
+        | .panic => (.panic, (mapSt (cloneRef f src) (node.kids e.kind) st).2)
+        | .oof => (.oof, (mapSt (cloneRef f src) (node.kids e.kind) st).2)
 
 end Old
 
